@@ -26,7 +26,7 @@ void gen_writer_cfg(Plan &p, Rng &r, bool allow_pool, bool allow_wfrag, bool all
 	p.seti("bsize", r.chance(3, 5) ? 1024 : bs[r.below(12)]);
 	p.set("bsize_set", r.chance(9, 10) ? "1" : "0");	// 0: leave the option at its default (8192)
 	p.seti("rint", r.chance(7, 10) ? 1 + r.below(6) : r.chance(1, 2) ? 16 : 7 + r.below(34));
-	p.seti("pool", allow_pool && r.chance(1, 2) ? (long long)r.below(5) : -1);
+	p.seti("pool", allow_pool && r.chance(1, 2) ? (long long)(r.chance(1, 10) ? 5 + r.below(4) : r.below(5)) : -1);	// 0..4 mostly, now and then up to 8
 	p.seti("prefix", allow_prefix && r.chance(3, 10) ? 1 + (long long)r.below(700) : 0);
 	p.seti("prefseed", r.below(1000));
 	p.seti("prefmode", r.chance(1, 2) ? 0 : 1 + r.below(2));
